@@ -31,7 +31,7 @@ theorem legacy_rotate_once_eq_len (seq : List String) (sst : List Char) (h : seq
     toCurrent (rotateOnceLists seq sst) = rotateOnce seq sst :=
   rotateOnceLists_eq seq sst h
 
-/-- the method on the instance: success updates `_sequence`, `_structure` and resets four caches -/
+/-- the method on the instance: success updates `_sequence`, `_structure` and resets six caches (`rotated`) -/
 theorem legacy_rotate_once_obj (o : LObj) (h : o.seq.length = o.sst.length) (nx : List String × List Char)
     (hrot : rotateOnce o.seq o.sst = .ok nx) : o.rotateOnce = (rotated o nx, none) :=
   obj_rotateOnce o nx hrot h
